@@ -45,6 +45,27 @@ Theorem C04_js_denotes_the_expression :
 Proof. exact read_to_js. Qed.
 Print Assumptions C04_js_denotes_the_expression.
 
+(* The object-property forms (SpecLingo.EObj / EMenu: the <property> of sound / sprite / cast / field, the last <chunk> /
+   the number of <chunk>s of a text, the name / number of menuItems of a menu, the <property> of menuItem i of menu m) are
+   inside the three theorems above: sound(id).prop, sprite(id).prop, member(id).prop, field(x).prop, x.word["last"],
+   x.word.length, _menuBar.menu[id].name, _menuBar.menu[id].item.length, _menuBar.menu[m].item[i].prop - the identifier of
+   an object written as it is when it is a constant.  js_ok excludes a chunk of a number or of a signed value, which would
+   need parentheses the generator does not write.  Non-vacuity: *)
+Example C04_object_js_example :
+  let en := Build_env ["x"] [] [Leaf KLocal "s" 0 true] [] [CStr """title"""] in
+  let e1 := EObj FCast 2 (EConst 0) in                                  (* the text of cast "title" *)
+  let e2 := EMenu 3 (EInt 2) (EBin Add (ELoc 0) (EInt 1)) in            (* the enabled of menuItem 2 of menu (s + 1) *)
+  let e3 := EObj FNumber 4 (EObj FField 2 (ELoc 0)) in                  (* the number of lines of the text of field s *)
+  let e4 := EObj FLast 13 (ELoc 0) in                                   (* the last word of s *)
+  (js_ok en e1 /\ js_ok en e2 /\ js_ok en e3 /\ js_ok en e4) /\
+  gen_js (reify_e en 0 e1) 0 false = "member(""title"").text" /\
+  gen_js (reify_e en 0 e2) 0 false = "_menuBar.menu[(s + 1)].item[2].enabled" /\
+  gen_js (reify_e en 0 e3) 0 false = "field(s).text.line.length" /\
+  gen_js (reify_e en 0 e4) 0 false = "s.word[""last""]" /\
+  read_js (to_js false en e3) = Some (NChunkCount "line" (NObj "field" "text" (NVar "s"))) /\
+  read_js (to_js false en e2) = Some (NMenuItem "enabled" (NLit "2") (NBin Add (NVar "s") (NLit "1"))).
+Proof. split; [cbn; tauto|]. repeat split; vm_compute; reflexivity. Qed.
+
 (* Statements and structure.  The line emitted for a decompiled assignment / statement call is the canonical
    JavaScript of the SOURCE statement ("<target> = <expr>;", "f(args);", "fn_call(h(args));" for a handler of the
    script; a line gets its semicolon unless its text ends in a closing brace), and for every exit-free nest of
